@@ -303,6 +303,11 @@ class SmartRun:
         self.gate_records, self.filter_records, self.set_records, self.unsync_records, self.list_records = [], [], [], [], []
         self.syncent_records = []
         self.filter_groups = []
+        self.info_records = []
+        self.info_errors = {}
+        self.known_oids = {}
+        self.tree_obligations = True
+        self.quiet_listing = True
         self.in_filter = False
         self.filter_note_ids = set()
         self.unsync_log = None
@@ -398,7 +403,14 @@ class SmartRun:
         self.engine_steps += 1
         self.trace.append(which)
         self.check_step()
+        self.instant()
         return r
+
+    def instant(self):
+        """the listing law at THIS instant: every folder's merged listing, smart_info_path of every known path and
+        smart_info_oid of every remote id ever seen, each compared with the Lean listing model on the state as it is now"""
+        self.listings(False)
+        self.infos()
 
     def quiesce(self, cap=300):
         quiet_rounds = 0
@@ -555,6 +567,8 @@ class SmartRun:
             self.hard.append(self.summary({"failure": "smart_listdir_path(%s) raised %s" % (lpath, res)}))
             return
         ents = ["%s:%s" % (enc_str(i.name), enc_bool(i.is_synced)) for i in items]
+        if items:
+            self.checks.append(("ghost | " + " ".join(self.ghost_row(i) for i in items), "ghost", len(self.trace)))
         line = "listing | %s | %s | %s | %s" % ("Q" if quiet else "S", " ".join(enc_str(k) for k in kids(tl)),
                                                 " ".join(enc_str(k) for k in kids(tr)), " ".join(ents))
         self.checks.append((line, "listing", len(self.trace)))
@@ -590,6 +604,87 @@ class SmartRun:
                 f["localVisible"] = bool(lent.mtime or lent.size)
             self.list_records.append((f, got.get(name, [])))
 
+    def remote_known_gone(self, info):
+        """what the ENGINE knows (its state entry, found through the reported remote id, else through the reported path)
+        about the remote side of a reported object: True = known TRASHED/MISSING"""
+        from cloudsync.sync.state import TRASHED, MISSING
+        st = self.cs.state
+        ent = st.lookup_oid(REMOTE, info.remote_oid) if getattr(info, "remote_oid", None) else None
+        if ent is None and info.path:
+            try:
+                rp = self.cs.translate(REMOTE, info.path)
+                es = st.lookup_path(REMOTE, rp, stale=True) if rp else []
+                ent = es[0] if es else None
+            except Exception:  # noqa
+                ent = None
+        return bool(ent is not None and ent[REMOTE].exists in (TRASHED, MISSING))
+
+    def ghost_row(self, info):
+        return "%s:%s:%s" % (enc_str(info.name or "?"), enc_bool(info.is_synced), enc_bool(self.remote_known_gone(info)))
+
+    def _list_features(self, lent, rent):
+        from cloudsync.sync.state import TRASHED, MISSING
+        cs = self.cs
+        local = cs.providers[0]
+        f = {"hasLocal": lent is not None, "hasRent": rent is not None, "rentLocalPath": False, "pathsMatch": False,
+             "localGone": False, "remoteGone": False, "localVisible": False, "remoteVisible": False}
+        if rent is not None:
+            f["rentLocalPath"] = bool(rent[LOCAL].path)
+            f["pathsMatch"] = bool(local.paths_match(cs.translate(LOCAL, rent[REMOTE].path), rent[LOCAL].path))
+            f["localGone"] = rent[LOCAL].exists in (TRASHED, MISSING)
+            f["remoteGone"] = rent[REMOTE].exists in (TRASHED, MISSING)
+            f["remoteVisible"] = bool(rent[REMOTE].mtime or rent[REMOTE].size)
+        if lent is not None:
+            f["localVisible"] = bool(lent.mtime or lent.size)
+        return f
+
+    def infos(self):
+        """smart_info_path of every known path and smart_info_oid of every remote id ever seen, at this instant"""
+        cs, w = self.cs, self.w
+        tl = w.tree(0)
+        tr = w.tree(1, with_oid=True)
+        for k, v in tr.items():
+            self.known_oids[v[2]] = k
+        paths = sorted(set(self.files) | set(tl) | set(tr) | set(self.known_oids.values()))
+        for rel in paths:
+            lpath = w.roots[0] + rel
+            # the inputs the call reads, taken before the call
+            try:
+                lent = cs.providers[0].info_path(lpath)
+                rp = cs.translate(REMOTE, lpath)
+                rents = cs.state.lookup_path(REMOTE, rp) if rp else []
+                rent = rents[0] if rents else None
+                f = self._list_features(lent, rent) if (rent is not None and rent[REMOTE].path) or rent is None else None
+            except Exception:  # noqa
+                f = None
+            res, info = self.api(cs.smart_info_path, lpath)
+            if res != "ok":
+                self.info_errors[("path", res)] = self.info_errors.get(("path", res), 0) + 1
+                continue
+            if info is not None:
+                self.checks.append(("ghost | " + self.ghost_row(info), "ghost", len(self.trace)))
+            if f is not None:
+                self.info_records.append(("info", "info " + _b(*[f[k] for k in LIST_ORDER]),
+                                          "-" if info is None else enc_bool(info.is_synced), {"features": f, "path": lpath}))
+        for oid in sorted(self.known_oids):
+            try:
+                rent = cs.state.lookup_oid(REMOTE, oid)
+                tr_ok = bool(rent is not None and rent[REMOTE].path and cs.translate(LOCAL, rent[REMOTE].path))
+                f = self._list_features(None, rent) if (rent is not None and rent[REMOTE].path) else None
+            except Exception:  # noqa
+                rent, tr_ok, f = None, False, None
+            res, info = self.api(cs.smart_info_oid, oid)
+            if res != "ok":
+                self.info_errors[("oid", res)] = self.info_errors.get(("oid", res), 0) + 1
+                continue
+            if info is not None:
+                self.checks.append(("ghost | " + self.ghost_row(info), "ghost", len(self.trace)))
+            if rent is None:
+                f = {k: False for k in LIST_ORDER}
+            if f is not None:
+                self.info_records.append(("infooid", "infooid %s %s" % (_b(rent is not None, tr_ok), _b(*[f[k] for k in LIST_ORDER])),
+                                          "-" if info is None else enc_bool(info.is_synced), {"features": f, "oid": oid}))
+
     def listings(self, quiet):
         tl, tr = self.trees()
         ds = {""} | {k for k, v in tl.items() if v[0] == "d"} | {k for k, v in tr.items() if v[0] == "d"}
@@ -601,11 +696,16 @@ class SmartRun:
         return " ".join(enc_rel(p) for p in sorted(self.files) if self.auto(p))
 
     def check_step(self):
+        if not self.tree_obligations:
+            return
         tl = self.w.tree(0)
         line = "step | %s | %s | %s" % (" ".join(self.ops), self.auto_tokens(), enc_tree20(tl))
         self.checks.append((line, "step", len(self.trace)))
 
     def check_quiet(self):
+        if not self.tree_obligations:
+            self.listings(self.quiet_listing)
+            return
         tl, tr = self.trees()
         line = "quiet | %s | %s | %s | %s" % (" ".join(self.ops), self.auto_tokens(), enc_tree20(tl), enc_tree20(tr))
         self.checks.append((line, "quiet", len(self.trace)))
@@ -744,6 +844,12 @@ def py_check(line):
             return "reject newest-lost %s" % p
         if {k: v for k, v in la.items() if k != p} != exp_l:
             return "reject other-local-changed %s" % _diff({k: v for k, v in la.items() if k != p}, exp_l)
+        return "ok"
+    if kind == "ghost":
+        for row in s[1]:
+            n, sy, g = row.split(":")
+            if sy == "F" and g == "T":
+                return "reject deleted-remote-file-listed %s" % n
         return "ok"
     if kind == "listing":
         quiet, lk, rk = s[1][0] == "Q", s[2], s[3]
@@ -1015,6 +1121,46 @@ def scen_localdir(run, g1, g2, n):
     run.quiesce()
 
 
+def scen_window(run, pre, op, route, where, g1, later):
+    """remote delete / rename / edit of a never-requested (`none`), requested (`req`) or un-requested (`requn`) file; then the
+    remote intake ALONE, then the sync step: listings and info queries are taken after each of the two steps (the window in
+    which the engine knows about the change but has not acted on it), then after everything that follows"""
+    p = place(run, where)
+    q = place(run, where) if where == "root" else run.fresh_name(p.rsplit("/", 1)[0])    # a second, untouched file
+    run.user(1, "create", p, 1)
+    run.user(1, "create", q, 2)
+    run.files[p]["protected"] = False
+    if not run.quiesce():
+        return
+    if pre in ("req", "requn"):
+        run.request(p, route)
+        if not run.quiesce():
+            return
+    if pre == "requn":
+        run.unrequest(p, route)
+        if not run.quiesce():
+            return
+    if op == "delete":
+        run.user(1, "delete", p)
+    elif op == "edit":
+        run.user(1, "write", p, 7)
+    else:
+        # a remote rename: the specification has no rename operation, so from here on only the listing obligations
+        # (folder listings, ghost rows) and the model tie are evaluated, not the tree obligations
+        run.tree_obligations = False
+        if pre == "requn":
+            # known finding `unrequested-file-remote-rename-stale-name`: the quiescence clause "every remote-only file is listed" is
+            # not generated for this shape (the instant clauses and the ghost obligation still are)
+            run.quiet_listing = False
+        err = run.w.user(1, "rename", run.w.roots[1] + p, run.w.roots[1] + p + "r")
+        run.trace.append("UR:rename:%s%s" % (p, "!" + err if err else ""))
+    gap(run, g1)
+    run.step("R")
+    run.step("S")
+    gap(run, later)
+    run.quiesce()
+
+
 def scen_cases(rng):
     import itertools
     c = []
@@ -1026,6 +1172,8 @@ def scen_cases(rng):
     c += [("delete",) + x for x in itertools.product(("none", "req", "requn"), ("none", "request", "unrequest"), ROUTES,
                                                      ("", "S", "Q"), ("", "R", "RS", "Q"), ("root", "dir"))]
     c += [("early",) + x for x in itertools.product(ROUTES, GAPS, (1, 2), (1, 0))]
+    c += [("window",) + x for x in itertools.product(("none", "req", "requn"), ("delete", "rename", "edit"), ROUTES, ("root", "dir"),
+                                                     ("", "L", "S"), ("", "R", "LS", "SS"))]
     c += [("localdir",) + x for x in itertools.product(GAPS, GAPS, (1, 2, 3))]
     rng.shuffle(c)
     # round-robin over the scenario kinds so that every prefix covers all of them
@@ -1040,7 +1188,7 @@ def scen_cases(rng):
     return out
 
 
-SCEN = {"rur": scen_rur, "edit": scen_edit_unsync, "never": scen_never, "delete": scen_delete, "early": scen_early,
+SCEN = {"window": scen_window, "rur": scen_rur, "edit": scen_edit_unsync, "never": scen_never, "delete": scen_delete, "early": scen_early,
         "localdir": scen_localdir}
 
 
@@ -1312,6 +1460,7 @@ def tie_lines(run):
         else:
             line = "unsyncpath %s %s" % (_b(r.get("translates", True)), " ".join(fe))
         out.append(("unsync", line.strip(), real, {"route": r["route"], "result": r["res"]}))
+    out.extend(run.info_records)
     for f, got in run.list_records:
         real = "-" if not got else ("T" if got == [True] else "F" if got == [False] else "multiple:%r" % got)
         out.append(("list", "list " + _b(*[f[k] for k in LIST_ORDER]), real, {"features": f}))
@@ -1456,7 +1605,32 @@ def replay_hidden_after_early_unrequest():
         run.close()
 
 
-KNOWN = {"unrequest-folder-unmirrors": replay_unrequest_folder,
+def replay_stale_name_after_rename():
+    """oid-oid: remote mkdir /d1, create /d1/f2; quiesce; request by id; quiesce; un-request by id; quiesce; remote rename
+    /d1/f2 -> /d1/f2r; quiesce: the listing of /local/d1 shows `f2` (a name that exists on neither side) and not `f2r`"""
+    run = SmartRun("oid-oid", random.Random(1))
+    try:
+        run.user(1, "mkdir", "/d1")
+        run.user(1, "create", "/d1/f2", 1)
+        if not run.quiesce():
+            return None
+        a = run.request("/d1/f2", "o")
+        run.quiesce()
+        b = run.unrequest("/d1/f2", "o")
+        run.quiesce()
+        run.tree_obligations = False
+        run.w.user(1, "rename", run.w.roots[1] + "/d1/f2", run.w.roots[1] + "/d1/f2r")
+        q = run.quiesce()
+        names = sorted(i.name for i in run.cs.smart_listdir_path(run.w.roots[0] + "/d1"))
+        tl, tr = run.trees()
+        return bool(a == "ok" and b == "ok" and q and "/d1/f2r" in tr and "/d1/f2" not in tr and not [k for k in tl if k.startswith("/d1/")]
+                    and "f2r" not in names and "f2" in names)
+    finally:
+        run.close()
+
+
+KNOWN = {"unrequested-file-remote-rename-stale-name": replay_stale_name_after_rename,
+         "unrequest-folder-unmirrors": replay_unrequest_folder,
          "unrequest-before-first-look-hides-remote-file": replay_hidden_after_early_unrequest}
 
 
@@ -1593,8 +1767,8 @@ def run(res, tier, seed, proof_broken, replay):
                 hist_add(hists["gate_vectors"], line.split()[1] + "->" + real.replace(" ", ""))
             elif kind == "filter":
                 hist_add(hists["filter_vectors"], "/".join(line.split()[1:]) + "->" + real)
-            elif kind == "list":
-                hist_add(hists["listing_vectors"], line.split()[1] + "->" + real)
+            elif kind in ("list", "info", "infooid"):
+                hist_add(hists["listing_vectors"], kind + ":" + "/".join(line.split()[1:]) + "->" + real)
             elif kind == "unsync":
                 hist_add(hists["unsync_actions"], real.replace(" ", ","))
         for line, kind, pos in r.checks:
@@ -1649,7 +1823,7 @@ def run(res, tier, seed, proof_broken, replay):
                 "or the gate finished an entry without transfer",
         "samples": [{"run": spec_meta[0][3].final_summary, "monitor_line": spec_meta[0][0]}] if spec_meta else [],
         "disagreements_checked": len(disagreements) + len(rejects) + len(hard),
-        "model_tie_evaluations": {k: len([1 for m in model_real if m[0] == k]) for k in ("gate", "filter", "filtergroup", "sets", "setseq", "syncent", "unsync", "list")},
+        "model_tie_evaluations": {k: len([1 for m in model_real if m[0] == k]) for k in ("gate", "filter", "filtergroup", "sets", "setseq", "syncent", "unsync", "list", "info", "infooid")},
         "histograms": {k: (dict(sorted(v.items(), key=lambda kv: -kv[1])[:60])) for k, v in hists.items()},
         "distinct_feature_vectors": {k: len(hists[k]) for k in ("gate_vectors", "filter_vectors", "listing_vectors", "unsync_actions")},
         "fingerprints": fingerprints(FP_SPEC),
